@@ -171,10 +171,14 @@ class _ZkProve(_Backend):
         shapes = [dict(npub=0, npriv=0, cons=[]),
                   dict(npub=1, npriv=2, cons=[[(-1,), (-2,), (1, 0)], [(-1,), (-2,), (0,)]]),     # second: C is a bare constant with any coefficient
                   dict(npub=2, npriv=0, cons=[[(), (), (1, 2, 0)]]),                                # public values only: no private variable at all
-                  dict(npub=1, npriv=1, cons=[[(), (), ()], [(0,), (-1,), (1,)]])]                  # a row without a single term
+                  dict(npub=1, npriv=1, cons=[[(), (), ()], [(0,), (-1,), (1,)]]),                  # a row without a single term
+                  dict(npub=1, npriv=1, cons=[[(), (), (1, -1, 0)], [(), (), (1, -1, 0)]]),         # two rows over the same variables
+                  "dict(npub=0, npriv=1, cons=[[(), (), ()]] * 1029 + [[(-1,), (), ()]])"]          # more rows than any block size a writer may use (1024): none is lost
         if tier != "quick":
             shapes.append(dict(npub=2, npriv=2, cons=[[(-1, 1), (-2,), (2, 0)], [(), (0,), (-1,)]]))
-        return [dict(shape=repr(s)) for s in shapes]
+        # (the 1030-row shape is discharged by the checks of the properties this writer belongs to, not again by every
+        # check that merely leans on the backend interface)
+        return [dict(shape=s if isinstance(s, str) else repr(s), **({"own_only": True} if isinstance(s, str) else {})) for s in shapes]
 
     def setup(self, c, cfg):
         m = self.mod(c)
